@@ -1,7 +1,7 @@
 """Translator: step.c field table and the strtonum bounds -> Gen_Step.v"""
 import os, re
 
-CMAX = {'INT_MAX': 2147483647, 'LLONG_MAX': 9223372036854775807, 'LLONG_MIN': -9223372036854775808}
+CMAX = {'INT_MAX': 2147483647, 'INT_MIN': -2147483648, 'LONG_MAX': 9223372036854775807, 'LONG_MIN': -9223372036854775808, 'LLONG_MAX': 9223372036854775807, 'LLONG_MIN': -9223372036854775808}
 
 
 def cval(tok):
